@@ -64,8 +64,11 @@ def run(c):
         c.violation("tsan-uci-session", "data-race", key, detail="script: %s\n%s" % (script, raw))
     # texelutil proofgame filter with worker pools
     fens = subprocess.run([B.exe("rel", "h_pg"), "genfens", str(c.seed), str(24 if quick else 200)], stdout=subprocess.PIPE, text=True).stdout
-    fens = "\n".join(l for l in fens.splitlines() if l and not l.startswith(("STAT", "SAMPLE", "VIOL"))) + "\n"
+    fens = "\n".join(l[4:].split(" | ")[0] for l in fens.splitlines() if l.startswith("FEN ")) + "\n"
+    if fens.count("\n") < 10:
+        raise core.HarnessError("position generator produced no FEN list")
     nfil = 0
+    ndamaged = 0
     for j in ([4, 16] if quick else [2, 3, 4, 8, 12, 16] * 6):
         for mode in (["-f"], ["-f", "-o", os.path.join(core.TMP, "c09_pg_%d" % os.getpid())]):
             if mode != ["-f"] and quick and j != 4:
@@ -75,6 +78,23 @@ def run(c):
             nfil += 1
             for key, raw in tsan_summary(r.stderr):
                 c.violation("tsan-texelutil-proofgame", "data-race", key, detail="texelutil -j %d proofgame %s\n%s" % (j, " ".join(mode), raw))
+            if mode == ["-f"]:
+                # resume from a damaged intermediate file: some worker tasks end with an exception while the others keep running
+                # (the exception path of the thread pool's bookkeeping); the tool is expected to stop with an error, not to race
+                dmg, ndmg = [], 0
+                for i, l in enumerate(r.stdout.splitlines()):
+                    if " extKernel: " in l and not l.rstrip().endswith("extKernel:") and i % 3 == 0:
+                        head, _, tail = l.rpartition(" extKernel: ")
+                        toks = tail.split()
+                        k = (i // 3) % len(toks)
+                        toks[k] = re.sub(r"\d(?!.*\d)", "9", toks[k]) if re.search(r"\d", toks[k]) else toks[k] + "9"
+                        l = head + " extKernel: " + " ".join(toks); ndmg += 1
+                    dmg.append(l)
+                if ndmg:
+                    r2 = core.run_proc([B.exe("tsan", "texelutil"), "-j", str(j), "proofgame", "-f"], env={"TSAN_OPTIONS": TSAN}, stdin_data="\n".join(dmg) + "\n", timeout=600)
+                    nfil += 1; ndamaged += ndmg
+                    for key, raw in tsan_summary(r2.stderr):
+                        c.violation("tsan-texelutil-proofgame", "data-race", key, detail="texelutil -j %d proofgame -f on a damaged intermediate file\n%s" % (j, raw))
             if r.timeout and len(mode) == 1:
                 c.inconclusive.append("texelutil -j %d proofgame -f timed out under TSan" % j)
     for f in os.listdir(core.TMP):
@@ -88,5 +108,5 @@ def run(c):
     c.rule = ("TSan builds: (a) random UCI sessions (as C05) with Threads 2..8, option changes between and during searches (Hash resize, Threads up/down, Clear Hash, MultiPV, Strength, "
               "Contempt, OwnBook/BookFile), ponder/ponderhit, stop, ucinewgame, quit/EOF mid-search; (b) 'texelutil -j N proofgame -f' and '-f -o' on generated FEN lists; (c) the C08 TT "
               "hammer. Every ThreadSanitizer report is a violation, de-duplicated by message + first three distinct engine frames. distinct_nontrivial = distinct session scripts")
-    c.extra.update(sessions=nsess, go_commands=ngo, max_threads_option=maxthr, proofgame_runs=nfil, tsan_reports=len(races), exhaustive=False)
+    c.extra.update(sessions=nsess, go_commands=ngo, max_threads_option=maxthr, proofgame_runs=nfil, damaged_intermediate_lines=ndamaged, tsan_reports=len(races), exhaustive=False)
     c.assumptions += ["TSan only sees pairs of accesses that executed in these runs; the Syzygy prober (atomic_thread_fence, unsupported by TSan) never executes without tablebase files"]
